@@ -1153,6 +1153,114 @@ def corr_summary(ck: Ck) -> None:
         ck.extra['summary_disagreement'] = cases[bad[0]][1]
 
 
+# ================================================================================================ SMD bone numbering
+
+SMD_NUM_NAMES = ['root', 'Root', 'ROOT', 'root ', ' root', 'a', 'A', 'b', 'B', 'b  c', 'b c', 'Weapon', 'weapon', 'x.y', "it's"]
+
+
+def corr_smd_number(ck: Ck):
+    """Fmt/SmdNumber.v `number` vs the nodes section Mesh.export writes (or ValueError): bones given children-first, in cycles, with
+    parents that are equal-but-not-identical objects or outside the mesh, several Bone objects of one name under different dict keys,
+    names that differ only in case / blanks (different keys for the model: the file keeps them apart)."""
+    import re as _re
+    from srctools.smd import Mesh, Bone
+    n = bud(ck, ('smd',), 80, 800)
+    cases: list[tuple[str, dict]] = []
+    line_re = _re.compile(rb'(\d+) "([^"]*)" (-?\d+)')
+    for _ in range(n):
+        rng = ck.rng
+        nb = rng.choice([1, 2, 2, 3, 3, 4, 5, 7])
+        pool = rng.sample(SMD_NUM_NAMES, rng.choice([2, 3, 5, len(SMD_NUM_NAMES)]))
+        spec = []
+        for i in range(nb):
+            r = rng.random()
+            if r < 0.25:
+                par: Any = None
+            elif r < 0.7:
+                par = rng.randrange(i) if i else None       # an earlier bone (the dict order is shuffled below: children may come first)
+            elif r < 0.8:
+                par = rng.randrange(nb)                     # any bone: later ones, itself (a cycle)
+            elif r < 0.95:
+                par = ['copy', rng.randrange(i + 1)]        # an equal but not identical object
+            else:
+                par = ['outside', rng.choice(SMD_NUM_NAMES)]
+            spec.append({'name': rng.choice(pool), 'parent': par})
+        order = list(range(nb))
+        if rng.random() < 0.6:
+            rng.shuffle(order)
+        spec = [dict(spec[i], parent=(order.index(spec[i]['parent']) if isinstance(spec[i]['parent'], int) else
+                                      (['copy', order.index(spec[i]['parent'][1])] if isinstance(spec[i]['parent'], list) and spec[i]['parent'][0] == 'copy'
+                                       else spec[i]['parent']))) for i in order]
+        ck.count('corr_smd_number')
+        codes: dict[str, int] = {}
+
+        def code(nm: str) -> int:
+            return codes.setdefault(nm, len(codes) + 1)
+        objs = [Bone(b['name'], None) for b in spec]
+        model = []
+        for b, o in zip(spec, objs):
+            par = b['parent']
+            if par is None:
+                pc = None
+            elif isinstance(par, int):
+                o.parent = objs[par]
+                pc = code(spec[par]['name'])
+            elif par[0] == 'copy':
+                o.parent = Bone(spec[par[1]]['name'], None)
+                pc = code(spec[par[1]]['name'])
+            else:
+                o.parent = Bone(par[1], None)
+                pc = code(par[1])
+            model.append((code(b['name']), pc))
+        bones = {f'{o.name}#{i}': o for i, o in enumerate(objs)}
+        f = io.BytesIO()
+        try:
+            Mesh(bones, {}, []).export(f)
+            data = f.getvalue()
+            sec = data[data.index(b'nodes\n') + 6:data.index(b'end\n')]
+            flat: list[int] | None = []
+            for ln in sec.split(b'\n'):
+                if not ln:
+                    continue
+                m = line_re.fullmatch(ln)
+                if m is None:
+                    flat = [999999]
+                    break
+                flat += [int(m.group(1)), code(m.group(2).decode('ascii')), int(m.group(3)) + 1]
+            got = 'Some ' + nl(flat)
+        except ValueError:
+            got = 'None'
+        except Exception as e:      # anything else is a disagreement (the model only knows ValueError)
+            got = 'Some ' + nl([888888])
+            ck.extra.setdefault('smd_number_exception', repr(e)[:200])
+        lit = '(' + coq_list('(mkBone %d %s)' % (k, 'None' if p is None else f'(Some {p})') for k, p in model) + ', ' + got + ')'
+        js = json.dumps(spec)
+        if len(spec) >= 2:
+            ck.seen(('smd-number', js))
+        ck.hist('corr_smd_number', 'error' if got == 'None' else 'numbered')
+        cases.append((lit, {'bones': spec, 'written': got}))
+    pre = PRE + ('Definition flatl (l : nline) : list N := let \'(i, k, p) := l in [N.of_nat i; k; match p with Some j => N.of_nat j + 1 | None => 0 end].\n'
+                 'Definition okn (c : list bone * option (list N)) : bool := onl_eqb (option_map (flat_map flatl) (number (fst c))) (snd c).\n')
+    jobs = []
+    for lo in range(0, len(cases), 200):
+        jobs.append((['Coq.Lists.List', 'Coq.NArith.NArith', 'Coq.Bool.Bool', 'SV.Fmt.SmdNumber'],
+                     ['bad_idx okn 0 ' + coq_list(c for c, _ in cases[lo:lo + 200])], f'smdnum{lo}', pre))
+    bad: list[int] = []
+    for lo, vals in zip(range(0, len(cases), 200), (yield jobs)):
+        if vals is None:
+            ck.obligation('correspondence:smd-numbering', False, 'model could not be evaluated')
+            ck.tie_broken.append('correspondence SmdTpl_gen smd numbering: model evaluation failed')
+            return
+        bad += [lo + i for i in parse_coq_N_list(vals[0])]
+    ck.obligation('correspondence:smd-numbering', not bad,
+                  f'{len(cases)} generated skeletons (children first, cycles, parents outside the mesh or equal-but-not-identical, several objects '
+                  f'of one name, names differing only in case / blanks): number (Fmt/SmdNumber.v) vs the nodes section of Mesh.export or ValueError: '
+                  f'{len(bad)} disagreements')
+    if bad:
+        ck.tie_broken.append('correspondence SmdTpl_gen smd numbering (Fmt/SmdNumber.v number vs Mesh.export nodes section)')
+        ck.extra['smd_number_disagreement'] = cases[bad[0]][1]
+
+
 # ================================================================================================ keyed tables
 
 KT_FAMILY = {'smd': 'smd_', 'particles': 'pcf_', 'cmdseq': 'cmdseq_', 'sndscript': 'sndscript_', 'vmt': 'vmt_'}
@@ -1652,6 +1760,7 @@ def run(ck: Ck) -> None:
         launch(corr_choreo_bin(ck))
     lap('gen-choreo-bin')
     if built:
+        launch(corr_smd_number(ck))
         launch(corr_summary(ck))
     lap('gen-summary')
     if built:
@@ -1703,6 +1812,8 @@ def run(ck: Ck) -> None:
     keys = [v['key'] for v in ck.violations]
     if any(k.startswith(('smd:read-error', 'smd:value-diff', 'smd:write-error', 'smd:regen-diff', 'smd:rewrite-error')) for k in keys):
         ck.explain('instance:smd_')
+    if any(k.startswith('smd:') for k in keys):
+        ck.explain('correspondence:smd-numbering')
     if any(k.startswith('pcf:') for k in keys):
         ck.explain('instance:pcf_')
     if any(k.startswith(('smd:', 'pcf:', 'scenes-image:', 'cmdseq:')) for k in keys):
